@@ -49,6 +49,9 @@ def main(argv):
             flag = "ok " if o not in bad else "BAD"
             if verbose or o in bad:
                 print(f"   {flag} {o.id:45s} {o.verdict:8s} {o.backend or '':5s} {o.time:6.2f}s L{o.line} {o.desc[:150]}")
+                if o in bad and os.environ.get("VERIF_DUMP"):
+                    os.makedirs(os.environ["VERIF_DUMP"], exist_ok=True)
+                    open(os.path.join(os.environ["VERIF_DUMP"], o.id.replace("/", "_") + ".smt2"), "w").write(o.smt2)
                 if o in bad and o.extra.get("trace"):
                     print("        trace:", " ".join(o.extra["trace"]))
                 if o in bad and o.model and "-m" in argv:
